@@ -423,7 +423,23 @@ func (r *collection) Remove(t reflect.Type) {
 	defer r.mu.Unlock()
 
 	typeKey := TypeKey{Type: t}
+	r.untrack(r.services[typeKey])
 	delete(r.services, typeKey)
+}
+
+// untrack drops a removed descriptor from the list Build, ToSlice and Count
+// work on, so that a removed registration has no effect on later builds.
+func (r *collection) untrack(descriptor *Descriptor) {
+	if descriptor == nil {
+		return
+	}
+
+	for i, d := range r.allDescriptors {
+		if d == descriptor {
+			r.allDescriptors = append(r.allDescriptors[:i:i], r.allDescriptors[i+1:]...)
+			return
+		}
+	}
 }
 
 // RemoveKeyed removes a specific keyed service
@@ -436,6 +452,7 @@ func (r *collection) RemoveKeyed(t reflect.Type, key any) {
 	defer r.mu.Unlock()
 
 	typeKey := TypeKey{Type: t, Key: key}
+	r.untrack(r.services[typeKey])
 	delete(r.services, typeKey)
 }
 
